@@ -27,8 +27,14 @@ func verifBuf(max int) []byte {
 func verifSB() *Superblock {
 	sizes := [4]uint8{1, 2, 4, 8}
 	sb := &Superblock{Version: 2, Endianness: binary.LittleEndian}
-	sb.OffsetSize = sizes[vrt.Choice(4)]
-	sb.LengthSize = sizes[vrt.Choice(4)]
+	if vrt.Thorough() {
+		sb.OffsetSize = sizes[vrt.Choice(4)]
+		sb.LengthSize = sizes[vrt.Choice(4)]
+	} else {
+		// quick tier: equal offset/length sizes only
+		k := vrt.Choice(4)
+		sb.OffsetSize, sb.LengthSize = sizes[k], sizes[k]
+	}
 	return sb
 }
 
@@ -62,7 +68,9 @@ func VerifH_C07_datatype() {
 
 func VerifH_C07_layout() {
 	vrt.AllocBudget(1 << 16)
-	data := verifBuf(verifBufN())
+	data := verifBuf(16)
+	// stated bound: dimensionality byte (v3 chunked: data[2]) at most 3, so the per-dimension loop is enumerable
+	vrt.Assume(len(data) < 3 || data[2] <= 3)
 	sb := verifSB()
 	l, err := ParseDataLayoutMessage(data, sb)
 	if err == nil {
@@ -74,6 +82,8 @@ func VerifH_C07_layout() {
 func VerifH_C07_filterpipeline() {
 	vrt.AllocBudget(1 << 16)
 	data := verifBuf(verifBufN())
+	// stated bound: at most 2 filters in the message (the filter count byte drives an allocation and a loop)
+	vrt.Assume(len(data) < 2 || data[1] <= 2)
 	fp, err := ParseFilterPipelineMessage(data)
 	if err == nil {
 		vrt.Assert(fp != nil, "pipeline-nil-without-error")
@@ -103,8 +113,12 @@ func VerifH_C07_attrinfo() {
 
 func VerifH_C07_link() {
 	vrt.AllocBudget(1 << 16)
-	data := verifBuf(verifBufN())
-	sb := verifSB()
+	n := 12
+	if vrt.Thorough() {
+		n = 16
+	}
+	data := verifBuf(n)
+	sb := verifSB8()
 	l, err := ParseLinkMessage(data, sb)
 	if err == nil {
 		vrt.Assert(l != nil, "link-nil-without-error")
